@@ -234,7 +234,8 @@ class C17(object):
         real.reset_world()
         sig = repr(case.get("gens"))
         return {"violations": out[:3], "stats": {"events": len(B.trace), "flushes": nfl, "probes": probes},
-                "sig": sig, "nontrivial": any(len(g["body"]) >= 2 for g in case.get("gens", [])), "digest": sig}
+                "sig": sig, "nontrivial": any(len(g["body"]) >= 2 for g in case.get("gens", [])),
+                "digest": sig + "|" + repr([(f["kind"], f["tokens"]) for f in B.flushes])}
 
 
 PROP = C17()
